@@ -122,19 +122,31 @@ def oracle(ctx, s, ds, qs, case):
         warnings.simplefilter("ignore")
         path, cfg = materialise(ds, wd, qs)
         calc = ctx.observe(cc.Calculator, path, _bucket="C15/crash", _case=case)
-        files = write_in(calc, section, case, ctx)
         T = np.array(calc.t_array, dtype=float)
         V = np.array(calc.v_array, dtype=float)
         keys = [tuple(k.voigt) for k in calc.modulus_keys]
-        mem = {}
-        for e in expect:
-            aliases, pattern, factor, prop, kind = DOC[e["rule"]]
-            base = calc.pressure_base if e["base"] == "tp" else calc.volume_base
-            if kind == "ij":
-                src = getattr(base, prop)
-                mem[(e["base"], e["rule"])] = {tuple(k.voigt): np.array(src[k], dtype=float) for k in calc.modulus_keys}
-            else:
-                mem[(e["base"], e["rule"])] = np.array(getattr(base, prop), dtype=float)
+
+        def snapshot():
+            mem = {}
+            for e in expect:
+                aliases, pattern, factor, prop, kind = DOC[e["rule"]]
+                base = calc.pressure_base if e["base"] == "tp" else calc.volume_base
+                if kind == "ij":
+                    src = getattr(base, prop)
+                    mem[(e["base"], e["rule"])] = {tuple(k.voigt): np.array(src[k], dtype=float) for k in calc.modulus_keys}
+                else:
+                    mem[(e["base"], e["rule"])] = np.array(getattr(base, prop), dtype=float)
+            return mem
+
+        # the in-memory results are observed BEFORE anything is written; writing must not change them
+        mem = ctx.observe(snapshot, _bucket="C15/read-crash", _case=case)
+        files = write_in(calc, section, case, ctx)
+        mem_after = ctx.observe(snapshot, _bucket="C15/read-after-write-crash", _case=case)
+        for k_, v_ in mem.items():
+            w_ = mem_after[k_]
+            same = all(np.array_equal(v_[x], w_[x], equal_nan=True) for x in v_) if isinstance(v_, dict) else np.array_equal(v_, w_, equal_nan=True)
+            if not same:
+                raise PropertyViolation("C15/write-changes-memory", "in-memory %s (%s base) differs after write_output()" % (DOC[k_[1]][3], k_[0]), case)
         # alias pair: the first expectation re-written under another alias must give identical bytes
         alias_checked = 0
         for e in expect[:2]:
